@@ -129,6 +129,7 @@ func (c *ExecCtx) syncCall(st *State, fn *types.Func, f *ast.SelectorExpr, call 
 		return nil, true
 	case "(*sync.WaitGroup).Wait":
 		c.yield(st)
+		c.joinWG(st, exprString(f.X))
 		u.setTag(st, "wgwait:"+exprString(f.X))
 		return nil, true
 	case "(*sync.WaitGroup).Go":
@@ -483,8 +484,62 @@ func (c *ExecCtx) execGo(st *State, x *ast.GoStmt) {
 // spawnLit: a goroutine body is not executed here; variables it assigns
 // become volatile; it is verified as a separate unit.
 func (c *ExecCtx) spawnLit(st *State, lit *ast.FuncLit, how string, pos token.Pos) {
+	before := map[types.Object]bool{}
+	for k, v := range st.volatile {
+		if v {
+			before[k] = true
+		}
+	}
 	c.markCaptured(st, lit)
+	// which wait groups account for this goroutine?
+	var wgs []string
+	if strings.HasPrefix(how, "wg.Go ") {
+		wgs = append(wgs, strings.TrimPrefix(how, "wg.Go "))
+	}
+	ast.Inspect(lit.Body, func(n ast.Node) bool {
+		if ce, ok := n.(*ast.CallExpr); ok {
+			if se, ok := ce.Fun.(*ast.SelectorExpr); ok && se.Sel.Name == "Done" {
+				if s, ok := c.info.Selections[se]; ok && s.Obj().(*types.Func).FullName() == "(*sync.WaitGroup).Done" {
+					wgs = append(wgs, exprString(se.X))
+				}
+			}
+		}
+		return true
+	})
+	if len(wgs) > 0 {
+		nj := map[types.Object][]string{}
+		for k, v := range st.joiners {
+			nj[k] = v
+		}
+		for k, v := range st.volatile {
+			if v && !before[k] {
+				nj[k] = append(append([]string{}, nj[k]...), wgs...)
+			}
+		}
+		st.joiners = nj
+	}
 	c.litOrd++
+}
+
+// joinWG: after wg.Wait() the goroutines accounted on wg have finished; the
+// variables only they write are stable again (one unknown value).
+func (c *ExecCtx) joinWG(st *State, wg string) {
+	for obj, ws := range st.joiners {
+		if !st.volatile[obj] {
+			continue
+		}
+		for _, w := range ws {
+			if w == wg {
+				delete(st.volatile, obj)
+				if v, ok := obj.(*types.Var); ok {
+					t := c.u.fresh("joined_"+v.Name(), c.sortOfType(v.Type()))
+					c.typeFacts(st, t, v.Type())
+					c.u.varSet(st, v, t)
+				}
+				break
+			}
+		}
+	}
 }
 
 // ---------------------------------------------------------------------------
@@ -518,6 +573,14 @@ func (c *ExecCtx) execSend(st *State, x *ast.SendStmt) {
 	}
 	_ = CL
 	c.checkChanInv(st, x.Chan, v, x.Pos(), false)
+	if spec := c.ownSpec(); spec != nil {
+		for _, g := range spec.Ghosts {
+			if g.Anchor == "send("+exprString(x.Chan)+")" {
+				g.used = true
+				c.execGhostWith(st, g, x.Pos(), map[string]Val{"ʃmsg": v})
+			}
+		}
+	}
 	u.setTag(st, "sent:"+exprString(x.Chan))
 	k := "$sent:" + exprString(x.Chan)
 	cur, ok := st.ghost[k]
